@@ -39,7 +39,8 @@ pub fn check(st: &mut Stats, c: &C) {
             st.op(Op::YM_extract);
             let (sg, y, mo) = x.extract();
             let sgn: i64 = if sg == Sign::Negative { -1 } else { 1 };
-            if mo > 11 || sgn * (y as i64 * 12 + mo as i64) != m as i64 || (m >= 0 && sg != Sign::Positive) || (m < 0 && sg != Sign::Negative) {
+            // (a zero interval may carry either sign: the statement only requires value = sign x fields)
+            if mo > 11 || sgn * (y as i64 * 12 + mo as i64) != m as i64 {
                 st.fail("C13/ym/extract-does-not-recompose", format!("{} -> ({:?}, {}, {})", m, sg, y, mo));
             }
             st.op(Op::YM_try_from_ym);
@@ -117,7 +118,7 @@ pub fn check(st: &mut Stats, c: &C) {
             let (sg, d, hh, mi, ss, us) = x.extract();
             let sgn: i128 = if sg == Sign::Negative { -1 } else { 1 };
             let total = d as i128 * DAY_US as i128 + hh as i128 * 3_600_000_000 + mi as i128 * 60_000_000 + ss as i128 * 1_000_000 + us as i128;
-            if hh > 23 || mi > 59 || ss > 59 || us > 999_999 || sgn * total != u as i128 || (u >= 0 && sg != Sign::Positive) || (u < 0 && sg != Sign::Negative) {
+            if hh > 23 || mi > 59 || ss > 59 || us > 999_999 || sgn * total != u as i128 {
                 st.fail("C13/dt/extract-does-not-recompose", format!("{} -> {:?}", u, (sg, d, hh, mi, ss, us)));
             }
             st.op(Op::DT_try_from_dhms);
